@@ -47,13 +47,9 @@ theorem C05_arm_fmtUint (ext : Ext F) (s : Scalar) (v : GoVal F)
     cases k <;> simp [armSoundOut, GoVal.kind, Kind.isInt, GoVal.wf, kindRange, Kind.isFloat] at hs hw
   | _ => simp [armSoundOut, GoVal.kind, Kind.isInt, kindRange] at hs
 
-/-- **C05_arm.** -/
-theorem C05_arm (ext : Ext F) (s : Scalar) (a : Action) (v : GoVal F)
-    (hs : armSoundOut s v.kind a = true) (hw : v.wf = true) :
-    checkOut ext s v (applyAction ext a v) = true := by
-  cases a with
-  | failNil => simp [applyAction, checkOut]
-  | asIs =>
+theorem C05_arm_asIs (ext : Ext F) (s : Scalar) (v : GoVal F)
+    (hs : armSoundOut s v.kind .asIs = true) (hw : v.wf = true) :
+    checkOut ext s v (applyAction ext .asIs v) = true := by
     cases v with
     | int k n => cases s <;> cases k <;> (first | (coerce_fin; done) | (coerce_fin; omega))
     | flt k x => cases s <;> cases k <;> coerce_fin
@@ -63,7 +59,10 @@ theorem C05_arm (ext : Ext F) (s : Scalar) (a : Action) (v : GoVal F)
     | sym _ => cases s <;> coerce_fin
     | time _ => cases s <;> coerce_fin
     | other _ => cases s <;> coerce_fin
-  | conv t =>
+
+theorem C05_arm_conv (ext : Ext F) (s : Scalar) (t : NumT) (v : GoVal F)
+    (hs : armSoundOut s v.kind (.conv t) = true) (hw : v.wf = true) :
+    checkOut ext s v (applyAction ext (.conv t) v) = true := by
     cases s <;> cases t <;> simp [armSoundOut] at hs
     · -- Int ← conv i32
       have hi : v.kind.isInt = true := by
@@ -76,31 +75,60 @@ theorem C05_arm (ext : Ext F) (s : Scalar) (a : Action) (v : GoVal F)
       obtain ⟨k, n, rfl, _⟩ := int_of_kind v hi hw
       obtain ⟨h1, h2⟩ := fits64 _ n hs hw
       simp [applyAction, convTo, checkOut, GoVal.kind, Scalar.outKind, wrapInt, wrap64_id n h1 h2, intValue, inRange64, h1, h2]
-  | fmtInt =>
+
+theorem C05_arm_fmtInt (ext : Ext F) (s : Scalar) (v : GoVal F)
+    (hs : armSoundOut s v.kind .fmtInt = true) (hw : v.wf = true) :
+    checkOut ext s v (applyAction ext .fmtInt v) = true := by
     cases v with
     | int k n => cases s <;> cases k <;> (first | (coerce_fin; done) | (coerce_fin; rw [wrap64_id n (by omega) (by omega)]))
     | flt k x => cases s <;> cases k <;> coerce_fin
     | _ => cases s <;> coerce_fin
-  | boolStr =>
+
+theorem C05_arm_boolStr (ext : Ext F) (s : Scalar) (v : GoVal F)
+    (hs : armSoundOut s v.kind .boolStr = true) (hw : v.wf = true) :
+    checkOut ext s v (applyAction ext .boolStr v) = true := by
     cases v with
     | int k n => cases s <;> cases k <;> coerce_fin
     | flt k x => cases s <;> cases k <;> coerce_fin
     | _ => cases s <;> coerce_fin
-  | symStr =>
+
+theorem C05_arm_symStr (ext : Ext F) (s : Scalar) (v : GoVal F)
+    (hs : armSoundOut s v.kind .symStr = true) (hw : v.wf = true) :
+    checkOut ext s v (applyAction ext .symStr v) = true := by
     cases v with
     | int k n => cases s <;> cases k <;> coerce_fin
     | flt k x => cases s <;> cases k <;> coerce_fin
     | _ => cases s <;> coerce_fin
-  | neZero =>
+
+theorem C05_arm_neZero (ext : Ext F) (s : Scalar) (v : GoVal F)
+    (hs : armSoundOut s v.kind .neZero = true) (hw : v.wf = true) :
+    checkOut ext s v (applyAction ext .neZero v) = true := by
     cases v with
     | int k n => cases s <;> cases k <;> coerce_fin
     | flt k x => cases s <;> cases k <;> coerce_fin
     | _ => cases s <;> coerce_fin
-  | fmtFloat bits =>
+
+theorem C05_arm_fmtFloat (ext : Ext F) (s : Scalar) (bits : Nat) (v : GoVal F)
+    (hs : armSoundOut s v.kind (.fmtFloat bits) = true) (hw : v.wf = true) :
+    checkOut ext s v (applyAction ext (.fmtFloat bits) v) = true := by
     cases v with
     | int k n => cases k <;> simp_all [armSoundOut, GoVal.kind, Kind.isFloat, GoVal.wf, kindRange]
     | flt k x => cases s <;> cases k <;> coerce_fin
     | _ => cases s <;> coerce_fin
+
+/-- **C05_arm.** -/
+theorem C05_arm (ext : Ext F) (s : Scalar) (a : Action) (v : GoVal F)
+    (hs : armSoundOut s v.kind a = true) (hw : v.wf = true) :
+    checkOut ext s v (applyAction ext a v) = true := by
+  cases a with
+  | failNil => simp [applyAction, checkOut]
+  | asIs => exact C05_arm_asIs ext s v hs hw
+  | conv t => exact C05_arm_conv ext s t v hs hw
+  | fmtInt => exact C05_arm_fmtInt ext s v hs hw
+  | boolStr => exact C05_arm_boolStr ext s v hs hw
+  | symStr => exact C05_arm_symStr ext s v hs hw
+  | neZero => exact C05_arm_neZero ext s v hs hw
+  | fmtFloat bits => exact C05_arm_fmtFloat ext s bits v hs hw
   | convCheckedKeep t => simp [armSoundOut] at hs
   | parseIntKeep t => simp [armSoundOut] at hs
   | parseFloatKeep t => simp [armSoundOut] at hs
@@ -109,6 +137,7 @@ theorem C05_arm (ext : Ext F) (s : Scalar) (a : Action) (v : GoVal F)
   | timeOfInt => simp [armSoundOut] at hs
   | timeParseKeep => simp [armSoundOut] at hs
   | convStrict t => simp [armSoundOut] at hs
+  | convTrunc t => simp [armSoundOut] at hs
   | parseInt32Keep => simp [armSoundOut] at hs
   | parseFloatFinite t => simp [armSoundOut] at hs
   | fmtUint => exact C05_arm_fmtUint ext s v hs hw
